@@ -444,7 +444,10 @@ class Recfile(object):
         if self.robj is None:
             raise ValueError("You have not yet opened a file")
 
-        dataview = data.view(numpy.ndarray)
+        # Records::Write takes the rows from the array's buffer as one
+        # contiguous block, so a strided, reversed or transposed view must be
+        # copied first (no copy is made for a C-contiguous array)
+        dataview = numpy.ascontiguousarray(data.view(numpy.ndarray))
 
         if self.is_ascii:
             # for ascii, make sure the data are in native format.  This greatly
